@@ -1,6 +1,10 @@
 package main
 
-import "strings"
+import (
+	"strings"
+
+	"golang.org/x/tools/go/ssa"
+)
 
 func init() {
 	properties["C08"] = propC08
@@ -40,9 +44,86 @@ func propC11(w *World, r *Report) {
 	RunReadOnly(w, r, NewEffects(w), "readonly", []string{"(*glyf.Glyph).Components", "(*glyf.Glyph).FixComponents", "(*glyf.Glyph).encodeLen", "(*glyf.Glyph).append", "(glyf.Glyphs).Encode"}, 0)
 	r.Floor("sizeagree", 1)
 	RunGlyfFlagSiblings(w, r)
+	RunPadStrip(w, r)
 	for _, a := range boundsAssumptions {
 		r.Assumes(a)
 	}
 	RunLosslessFor(w, r, "C11", newBoundsRun(w))
 
+}
+
+// RunPadStrip: glyf.Decode strips the padding that Encode added by calling
+// (*SimpleGlyph).removePadding, whose whole effect is the assignment
+// glyph.Encoded = buf[:pos] with pos the end of the coordinate data.  A
+// successful return that bypasses the assignment leaves the pad byte in the
+// glyph, which then differs from the one that was encoded.
+func RunPadStrip(w *World, r *Report) {
+	r.Rule("padstrip: every return of (*glyf.SimpleGlyph).removePadding with a nil error is dominated by the store to the glyph's Encoded field (the re-slicing to the exact length), and glyf.Decode calls removePadding for simple glyphs")
+	fn := w.Func("(*glyf.SimpleGlyph).removePadding")
+	if fn == nil {
+		r.Fatal("(*glyf.SimpleGlyph).removePadding does not resolve")
+		return
+	}
+	var stores []*ssa.Store
+	for _, b := range fn.Blocks {
+		for _, in := range b.Instrs {
+			if st, ok := in.(*ssa.Store); ok {
+				if fa, ok := st.Addr.(*ssa.FieldAddr); ok && fieldName(fa) == "Encoded" {
+					if _, isSlice := st.Val.(*ssa.Slice); isSlice {
+						stores = append(stores, st)
+					}
+				}
+			}
+		}
+	}
+	n := 0
+	for _, b := range fn.Blocks {
+		if len(b.Instrs) == 0 {
+			continue
+		}
+		ret, ok := b.Instrs[len(b.Instrs)-1].(*ssa.Return)
+		if !ok || len(ret.Results) != 1 {
+			continue
+		}
+		c, isConst := ret.Results[0].(*ssa.Const)
+		if !isConst || c.Value != nil {
+			continue // an error is returned
+		}
+		n++
+		key := r.MkKey("padstrip", fnName(fn), "successful return")
+		dominated := false
+		for _, st := range stores {
+			if st.Block() == b || st.Block().Dominates(b) {
+				dominated = true
+			}
+		}
+		if dominated {
+			r.OK("padstrip", key, w.Pos(ret.Pos()), "after glyph.Encoded = buf[:pos]")
+		} else {
+			r.Fail("padstrip", key, w.Pos(ret.Pos()), "removePadding can return successfully without re-slicing glyph.Encoded to the end of the glyph data: the pad byte added by Encode stays in the decoded glyph", nil)
+		}
+	}
+	key := r.MkKey("padstrip", "glyf.Decode", "calls removePadding")
+	called := false
+	for _, f := range w.LibFuncs() {
+		if !strings.HasSuffix(fnPkgPath(f), "/glyf") {
+			continue
+		}
+		for _, b := range f.Blocks {
+			for _, in := range b.Instrs {
+				if c, ok := in.(*ssa.Call); ok && c.Call.StaticCallee() == fn {
+					called = true
+				}
+			}
+		}
+	}
+	if called {
+		r.OK("padstrip", key, w.Pos(fn.Pos()), "removePadding is called by the decoder")
+	} else {
+		r.Fail("padstrip", key, w.Pos(fn.Pos()), "no call of removePadding in package glyf", nil)
+	}
+	if n == 0 {
+		r.Fatal("padstrip: no successful return found")
+	}
+	r.Floor("padstrip", 2)
 }
